@@ -9,6 +9,7 @@ proved here is stated exactly.
 -/
 import SmppVerif.Lemmas.Ledger
 import SmppVerif.Lemmas.History
+import SmppVerif.Lemmas.SegHistory
 
 namespace SmppVerif.Props.C01
 open SmppVerif SmppVerif.Corr SmppVerif.Lemmas.Corr SmppVerif.Lemmas.Expiry SmppVerif.Lemmas.Ledger
@@ -181,6 +182,68 @@ example :
         .put 3000 { kind := .enquireLink, seq := 8 }, .resp 3001 { kind := .submitSmResp, seq := 5, msgId := [1] }])).2 = 1 := by
   decide +kernel
 
+/-! ### history level: a segmented message amid arbitrary other traffic -/
+
+open SmppVerif.Lemmas.History SmppVerif.Lemmas.SegHistory in
+/-- LEDGER, segmented messages, AT MOST ONCE.  `M` is a message the library split into `n` segments
+    (reference `r`, log id `L`, pairwise distinct sequence numbers).  Take any history from the empty
+    state into which the n segment requests are woven in order (`Weave`): between and after them any
+    other requests are stored (other numbers, other log ids, other references), any responses are
+    handled — to M's segments in any order, accepted, rejected, nacked, of the wrong type, duplicated,
+    or never — and inbound deliver_sm are handled, all at arbitrary times, so that any subset of
+    M's segments may time out in any sweep.  Then the application sees at most one outcome carrying
+    `L`: the sweep that times out the last open segment, the response that answers it, or the sweep
+    inside that very response handling — never two of them.  (Reference reuse is excluded by the
+    hypothesis on other traffic: it is the known finding `ref_reuse_misattributes`.) -/
+theorem segmented_message_at_most_once (M : SegMsg) (w : M.WF) (ttlR ttlD : Nat) (ops : List Op)
+    (hw : Weave M 1 ops) : (runOps M.L (initState ttlR ttlD) ops).2 ≤ 1 :=
+  seg_ledger M w ttlR ttlD ops hw
+
+namespace Example
+open SmppVerif.Lemmas.History SmppVerif.Lemmas.SegHistory
+
+def seg (i : Nat) : Msg :=
+  { kind := .submitSm, seq := 10 + i, logId := 7, hasSar := true, sarRef := 4, sarSeq := i, sarTotal := 3 }
+def M : SegMsg := ⟨7, 4, 3, seg⟩
+def r (sq st : Nat) : Msg := { kind := .submitSmResp, seq := sq, status := st, msgId := [sq] }
+def other : Msg := { kind := .submitSm, seq := 50, logId := 9 }
+def tail : List Op := [.resp 1500 (r 13 0), .put 5000 { kind := .enquireLink, seq := 60 }]
+def ops : List Op :=
+  [.put 1 (seg 1), .put 2 other, .put 3 (seg 2), .resp 4 (r 12 8), .resp 5 (r 50 0), .put 900 (seg 3)] ++ tail
+
+theorem wf : M.WF :=
+  ⟨by decide, fun _ => rfl, fun _ => rfl, fun _ => rfl, fun _ => rfl, fun _ => rfl,
+   fun i j h => by have : 10 + i = 10 + j := h; omega⟩
+
+theorem notSeq (k : Nat) (h : k < 11 ∨ 13 < k) : ¬ M.IsSeq k := by
+  rintro ⟨i, hi1, hi2, hi⟩
+  have e : 10 + i = k := hi
+  have : i ≤ 3 := hi2
+  omega
+
+/-- Non-vacuity (a test): a 3-segment message, another message in between, segment 2 rejected before
+    segment 3 is even stored, segment 1 timing out, segment 3 accepted: the hypotheses are met … -/
+theorem weave : Weave M 1 ops := by
+  refine Weave.seg 1 1 _ (by decide) ?_
+  refine Weave.other 2 _ _ ⟨notSeq 50 (Or.inr (by decide)), by decide, fun h => absurd h (by decide)⟩ ?_
+  refine Weave.seg 2 3 _ (by decide) ?_
+  refine Weave.other 3 _ _ (by decide : (0 : Nat) ≠ 7) ?_
+  refine Weave.other 3 _ _ (by decide : (0 : Nat) ≠ 7) ?_
+  refine Weave.seg 3 900 _ (by decide) ?_
+  refine Weave.done 4 _ (by decide) ?_
+  intro op hop
+  unfold Example.tail at hop
+  rcases List.mem_cons.mp hop with h | hop
+  · subst h; exact (by decide : (0 : Nat) ≠ 7)
+  rcases List.mem_cons.mp hop with h | hop
+  · subst h; exact ⟨notSeq 60 (Or.inr (by decide)), by decide, fun h => absurd h (by decide)⟩
+  · cases hop
+
+/-- … and exactly one outcome is counted (the theorem says at most one). -/
+theorem count : (runOps 7 (initState 1000 100000) ops).2 = 1 := by decide +kernel
+
+end Example
+
 /-! ### the two history classes on which the full statement is FALSE of the code
     (kernel-checked on the model; replayed on the real code by the check every run) -/
 
@@ -237,3 +300,5 @@ end SmppVerif.Props.C01
 #print axioms SmppVerif.Props.C01.wrong_type_loses_outcome
 #print axioms SmppVerif.Props.C01.plain_message_exactly_once
 #print axioms SmppVerif.Props.C01.no_outcome_for_unknown_log_id
+#print axioms SmppVerif.Props.C01.segmented_message_at_most_once
+#print axioms SmppVerif.Props.C01.Example.weave
